@@ -348,7 +348,14 @@ func (g *PG) stmt(c genCtx) string {
 		}
 	case "coerce":
 		fb := g.fnBody(c)
-		switch g.n(0, 6, "coshape") {
+		switch g.n(0, 8, "coshape") {
+		case 7:
+			// built-ins that test their receiver / argument for NaN first
+			e := g.id("ce")
+			m := []string{"toFixed", "toExponential", "toPrecision"}[g.n(0, 2, "nanm")]
+			return "try{Number.prototype." + m + ".call({valueOf:function(){" + fb + "return 1}},1)}catch(" + e + "){}"
+		case 8:
+			return "if(Number.isNaN)Number.isNaN({valueOf:function(){" + fb + "return 1}});"
 		case 4:
 			// the value is converted to a string while an error message is built
 			e := g.id("ce")
